@@ -4,7 +4,7 @@ CONSTANTS
   Pays = {"plain", "wirekey", "brace"}
   FwKinds = {"ok"}
   FwConfigs = {"--"}
-  Values = {1, 3, 4}
+  Values = {1, 3, 4, 6}
   NoResult = {FALSE}
   ErrReplies = FALSE
   HostileClasses = {}
